@@ -93,3 +93,42 @@ Theorem C12g_merge_coarsest :
        forall x y : N, same_class r x y -> same_class (convp q) x y.
 Proof. exact g_merge_coarsest. Qed.
 Print Assumptions C12g_merge_coarsest.
+
+Theorem C12g_merge_fuel :
+  forall (fuel : nat) (p1 p2 : CharPartition),
+       gwf p1 ->
+       gwf p2 ->
+       (merge_fuel (convp p1) (convp p2) <= fuel)%nat ->
+       option_map convp (M_fn_merge_partitions fuel p1 p2) = Some (pmerge (convp p1) (convp p2)).
+Proof. exact g_merge_fuel. Qed.
+Print Assumptions C12g_merge_fuel.
+
+Theorem C12g_merge_list_loop :
+  forall (fuel : nat) (l : list CharPartition) (acc : CharPartition),
+       gwf acc ->
+       Forall gwf l ->
+       list_fuel_ok fuel l (convp acc) ->
+       list_res (fn_merge_partition_list_loop1 fuel l acc) =
+       Some (fold_left pmerge (map convp l) (convp acc)).
+Proof. exact g_merge_list_loop. Qed.
+Print Assumptions C12g_merge_list_loop.
+
+Theorem C12g_merge_partition_list :
+  forall (fuel : nat) (l : list CharPartition),
+       Forall gwf l ->
+       list_fuel_ok fuel l pnew ->
+       option_map convp (M_fn_merge_partition_list fuel l) = Some (pmerge_list (map convp l)).
+Proof. exact g_merge_partition_list. Qed.
+Print Assumptions C12g_merge_partition_list.
+
+Theorem C12g_merge_partition_list_wf :
+  forall (fuel : nat) (l : list CharPartition) (q : CharPartition),
+       Forall gwf l ->
+       list_fuel_ok fuel l pnew -> M_fn_merge_partition_list fuel l = Some q -> gwf q.
+Proof. exact g_merge_partition_list_wf. Qed.
+Print Assumptions C12g_merge_partition_list_wf.
+
+Theorem C12g_merge_list_fuel_exists :
+  forall (l : list CharPartition) (acc : part), exists fuel : nat, list_fuel_ok fuel l acc.
+Proof. exact g_merge_list_fuel_exists. Qed.
+Print Assumptions C12g_merge_list_fuel_exists.
